@@ -249,7 +249,7 @@ EXPLAIN = {}
 
 def plan(tier):
     quick = tier == "quick"
-    docs = ["basic", "parenta", "holder", "qnames", "enums", "nillable", "nsattr", "wrapped"] if quick else [d for d in mutate.DOCS if d not in ("mixed",)]
+    docs = ["basic", "parenta", "holder", "qnames", "enums", "nillable", "nsattr", "wrapped", "anystr", "family"] if quick else [d for d in mutate.DOCS if d not in ("mixed",)]
     jobs = []
     for d_i, doc in enumerate(docs):
         for writer in (("native",) if quick else ("native", "lxml")):
